@@ -1,5 +1,6 @@
 """Respelling of selector ASTs (gen_selectors.AGen): every CSS-insignificant choice is drawn from a PRNG.
 p = 0 gives the canonical spelling."""
+import zlib
 import soupsieve as sv
 
 HEX = '0123456789abcdefABCDEF'
@@ -84,7 +85,18 @@ class Sp:
             if e is None and ord(c) < 0x20 and c not in '\t':
                 e = '\\%x ' % ord(c)
             out += e if e is not None else c
+            out += self.linecont(v, i)
         return out + quote
+
+    def linecont(self, v, i):
+        """a CSS line continuation (backslash + newline: contributes nothing to a quoted string) after character i of v,
+        also right before the closing quote; decided by a hash of (v, i) so that the main stream of choices is unchanged"""
+        if not self.p:
+            return ''
+        h = zlib.crc32(('%s|%d' % (v.encode('utf-8', 'surrogatepass').hex(), i)).encode())
+        if h % 4:
+            return ''
+        return '\\' + ('\n', '\r\n', '\r', '\f')[(h >> 8) % 4]
 
     def pname(self, s):
         """a pseudo-class name: case variation and, as for any identifier, escapes"""
